@@ -823,6 +823,15 @@ def check(prop, tier):
     for pname, path, k in violations:
         print("VIOLATION property=%s replay=%s" % (prop, path))
         log("  part=%s kind=%s" % (pname, k))
+        # the replay file itself (text cases only), so that a log alone is enough to reproduce the run
+        try:
+            with open(path, "rb") as f:
+                raw = f.read(6000)
+            if raw and all(32 <= c < 127 or c in (9, 10, 13) for c in raw):
+                for l in raw.decode().split("\n")[:80]:
+                    log("  | " + l)
+        except OSError:
+            pass
     if violations:
         return 1
     if inconclusive:
